@@ -70,8 +70,8 @@ def run(ctx: Ctx):
     cat = L.catalogue(random.Random(ctx.seed), level)
     per, sel = {}, []
     for i, e in enumerate(cat):
-        per[e.cls] = per.get(e.cls, 0) + 1
-        if not ctx.quick or per[e.cls] <= 8:
+        per[e.group] = per.get(e.group, 0) + 1
+        if not ctx.quick or per[e.group] <= 8:
             sel.append((i, e))
     progs = []      # (key, which, cplx, eqs, out, A, fn, shapes)
     impls_of = {}
@@ -87,8 +87,8 @@ def run(ctx: Ctx):
         maps = [("forward", A, A.input_shape, A.input_dtype), ("adjoint", A.adj, A.output_shape, A.output_dtype)]
         # derived views of the first configurations of each class: the adjoint of the transpose,
         # the conjugate, and the Gram operator must be linear (complex-linear) too
-        nv[e.cls] = nv.get(e.cls, 0) + 1
-        if (not ctx.quick or nv[e.cls] <= 2) and L.is_complex(A.input_dtype) == L.is_complex(A.output_dtype):
+        nv[e.group] = nv.get(e.group, 0) + 1
+        if (not ctx.quick or nv[e.group] <= 2) and L.is_complex(A.input_dtype) == L.is_complex(A.output_dtype):
             try:
                 T, Cj, G = A.T, A.conj(), A.gram_op
                 maps += [("T.adj", T.adj, T.output_shape, T.output_dtype), ("conj()", Cj, Cj.input_shape, Cj.input_dtype),
